@@ -163,6 +163,33 @@ static int standard_codes() {
   return 0;
 }
 
+/* the string duplicators over (length, limit): the copy is exactly the first min(length, limit) characters, its block can hold
+   it, and the neighbours are untouched -- whatever the limit (a limit is not a size request) */
+static int string_limits() {
+  static const size_t lens[] = { 0, 1, 5, 40, 1000, 70000 };
+  for (size_t L : lens) {
+    std::string s(L, 'q'); for (size_t i = 0; i < L; i++) s[i] = (char)('a' + (i * 7) % 26);
+    const size_t limits[] = { 0, 1, L > 0 ? L - 1 : 0, L, L + 1, L + 8, 65536, (size_t)1 << 40, SIZE_MAX / 2, (size_t)PTRDIFF_MAX, (size_t)PTRDIFF_MAX + 1, SIZE_MAX - 8, SIZE_MAX - 1, SIZE_MAX };
+    for (size_t lim : limits) {
+      unsigned char* before = (unsigned char*)malloc(48); unsigned char* after_ = NULL; memset(before, 0xA5, 48);
+      char* d = strndup(s.c_str(), lim);
+      after_ = (unsigned char*)malloc(48); memset(after_, 0x5A, 48);
+      size_t want = L < lim ? L : lim;
+      sh->pairs++;
+      if (d == NULL) { viol("strndup(string of %zu characters, limit %zu) returned NULL", L, lim); return 1; }
+      if (strlen(d) != want || memcmp(d, s.c_str(), want) != 0) { viol("strndup(string of %zu characters, limit %zu): the copy has %zu characters or differs", L, lim, strlen(d)); return 1; }
+      if (!f_in_heap(d)) { viol("strndup result %p is not in a mimalloc heap region", (void*)d); return 1; }
+      if (malloc_usable_size(d) < want + 1) { viol("strndup(string of %zu characters, limit %zu): malloc_usable_size %zu cannot hold the %zu bytes that were written", L, lim, malloc_usable_size(d), want + 1); return 1; }
+      for (int i = 0; i < 48; i++) if (before[i] != 0xA5 || after_[i] != 0x5A) { viol("strndup(string of %zu characters, limit %zu) changed a neighbouring live block", L, lim); return 1; }
+      free(d); free(before); free(after_); sh->ok++; sh->nontrivial += (lim > L + 8);
+    }
+    char* e = strdup(s.c_str()); sh->pairs++;
+    if (e == NULL || strlen(e) != L || memcmp(e, s.c_str(), L) != 0 || malloc_usable_size(e) < L + 1) { viol("strdup(string of %zu characters) is wrong", L); return 1; }
+    free(e); sh->ok++;
+  }
+  return 0;
+}
+
 static void whole_program() {
   // containers, streams and threads allocate and free across entry points
   std::vector<std::thread> ts; std::map<int, std::string>* shared[4];
@@ -194,6 +221,8 @@ int main(int argc, char** argv) {
   if (only_a < 0) {
     pid_t pid = fork(); if (pid == 0) { int rc = standard_codes(); _exit(rc); } int st = 0; waitpid(pid, &st, 0);
     if (!(WIFEXITED(st) && (WEXITSTATUS(st) == 0 || WEXITSTATUS(st) == 1))) viol("standard return value checks died (status 0x%x)", st);
+    pid = fork(); if (pid == 0) { int rc = string_limits(); _exit(rc); } waitpid(pid, &st, 0);
+    if (!(WIFEXITED(st) && (WEXITSTATUS(st) == 0 || WEXITSTATUS(st) == 1))) viol("string duplication checks died (status 0x%x)", st);
     pid = fork(); if (pid == 0) { whole_program(); _exit(0); } waitpid(pid, &st, 0);
     if (!(WIFEXITED(st) && WEXITSTATUS(st) == 0)) viol("whole-program run died (status 0x%x)", st);
   }
